@@ -159,6 +159,92 @@ func simpleType(t field.Type) protoMetricsV1.SimpleFieldType {
 	}
 }
 
+// memShard is the shard level state memory databases share: metadata database, memory index
+// and write buffers.
+type memShard struct {
+	bufMgr  memdb.BufferManager
+	metaDB  memdb.MetadataDatabase
+	indexDB *fakeIndexDB
+	conv    *metric.BrokerRowProtoConverter
+}
+
+func newMemShard(dir string) *memShard {
+	sh := &memShard{
+		bufMgr: memdb.NewBufferManager(filepath.Join(dir, "buffer")),
+		metaDB: memdb.NewMetadataDatabase(&models.DatabaseConfig{Name: "db"}, fakeMetaDB{}),
+		conv:   metric.NewProtoConverter(models.NewDefaultLimits()),
+	}
+	sh.indexDB = &fakeIndexDB{metaDB: sh.metaDB, byName: map[uint64]memdb.TimeSeriesIndex{}}
+	return sh
+}
+
+func (sh *memShard) close() {
+	sh.metaDB.Close()
+	sh.bufMgr.GarbageCollect()
+}
+
+// newDB creates the memory database of one data family (tsdb/data_family.go GetOrCreateMemoryDatabase).
+func (sh *memShard) newDB(familyTime int64) (memdb.MemoryDatabase, error) {
+	return memdb.NewMemoryDatabase(&memdb.MemoryDatabaseCfg{
+		FamilyTime: familyTime, Name: "db", IntervalCalc: timeutil.Interval(scInterval).Calculator(),
+		Interval: timeutil.Interval(scInterval), IndexDatabase: sh.indexDB, BufferMgr: sh.bufMgr,
+	})
+}
+
+// write converts the proto metric with the production converter and writes it the way
+// tsdb/data_family.go WriteRows does (one row, wait for metadata and index workers).
+func (sh *memShard) write(mdb memdb.MemoryDatabase, pm *protoMetricsV1.Metric) error {
+	block, err := sh.conv.MarshalProtoMetricV1(pm)
+	if err != nil {
+		return fmt.Errorf("row rejected by the production converter: %w (%+v)", err, pm)
+	}
+	batch := metric.NewStorageBatchRows()
+	batch.UnmarshalRows(append([]byte(nil), block...))
+	if batch.Len() != 1 {
+		return fmt.Errorf("%d rows decoded", batch.Len())
+	}
+	row := batch.Rows()[0]
+	mdb.AcquireWrite()
+	defer mdb.CompleteWrite()
+	if err := mdb.WriteRow(row); err != nil {
+		return err
+	}
+	row.Wait()
+	return nil
+}
+
+// flush is tsdb/data_family.go flushMemoryDatabase.
+func (sh *memShard) flush(mdb memdb.MemoryDatabase, family kv.Family) error {
+	kvFlusher := family.NewFlusher()
+	defer kvFlusher.Release()
+	dataFlusher, err := metricsdata.NewFlusher(kvFlusher)
+	if err != nil {
+		return err
+	}
+	if err := mdb.FlushFamilyTo(dataFlusher); err != nil {
+		return err
+	}
+	return mdb.Close()
+}
+
+func simpleRow(metricID, seriesID uint32, familyTime int64, slot uint16, fields map[field.ID]float64, types map[field.ID]field.Type) *protoMetricsV1.Metric {
+	pm := &protoMetricsV1.Metric{
+		Name: fmt.Sprintf("m%d", metricID), Namespace: "ns",
+		Timestamp: familyTime + int64(slot)*scInterval,
+		Tags:      []*protoMetricsV1.KeyValue{{Key: "s", Value: strconv.Itoa(int(seriesID))}},
+	}
+	ids := make([]int, 0, len(fields))
+	for id := range fields {
+		ids = append(ids, int(id))
+	}
+	sort.Ints(ids)
+	for _, id := range ids {
+		pm.SimpleFields = append(pm.SimpleFields, &protoMetricsV1.SimpleField{
+			Name: fmt.Sprintf("f%d", id), Type: simpleType(types[field.ID(id)]), Value: fields[field.ID(id)]})
+	}
+	return pm
+}
+
 func rawBlocksOfNewestFile(f kv.Family) (map[uint32][]byte, error) {
 	snap := f.GetSnapshot()
 	defer snap.Close()
@@ -194,12 +280,9 @@ func runSelfCheck(t *rapid.T) {
 	if err != nil {
 		t.Fatalf("harness: %v", err)
 	}
-	bufMgr := memdb.NewBufferManager(filepath.Join(dir, "buffer"))
-	metaDB := memdb.NewMetadataDatabase(&models.DatabaseConfig{Name: "db"}, fakeMetaDB{})
-	indexDB := &fakeIndexDB{metaDB: metaDB, byName: map[uint64]memdb.TimeSeriesIndex{}}
+	shard := newMemShard(dir)
 	defer func() {
-		metaDB.Close()
-		bufMgr.GarbageCollect()
+		shard.close()
 		_ = kv.GetStoreManager().CloseStore(storePath)
 		_ = os.RemoveAll(dir)
 	}()
@@ -214,7 +297,7 @@ func runSelfCheck(t *rapid.T) {
 	}
 
 	// schema: simple fields only from the generator's pools, plus an optional histogram
-	sc := &schema{Fields: map[uint32][]fieldDef{}, Series: map[uint32][]uint32{}}
+	sc := &schema{Fields: map[uint32][]fieldDef{}, Series: map[uint32][]uint32{}, hot: map[uint32][2]int{}}
 	sc.Metrics = subset(t, "metrics", metricPool, 1, 3)
 	simpleTypes := []field.Type{field.SumField, field.MinField, field.MaxField, field.FirstField, field.LastField}
 	for _, m := range sc.Metrics {
@@ -240,15 +323,11 @@ func runSelfCheck(t *rapid.T) {
 	}
 
 	knownSeries := map[uint32]map[uint32]bool{} // series the shard index knows per metric (never forgets in this case)
-	conv := metric.NewProtoConverter(models.NewDefaultLimits())
 	var classes = map[string]bool{}
 	var canon strings.Builder
 	nDBs := rapid.IntRange(1, 3).Draw(t, "memdbs")
 	for d := 0; d < nDBs; d++ {
-		mdb, err := memdb.NewMemoryDatabase(&memdb.MemoryDatabaseCfg{
-			FamilyTime: scFamilyTime, Name: "db", IntervalCalc: timeutil.Interval(scInterval).Calculator(),
-			Interval: timeutil.Interval(scInterval), IndexDatabase: indexDB, BufferMgr: bufMgr,
-		})
+		mdb, err := shard.newDB(scFamilyTime)
 		if err != nil {
 			t.Fatalf("harness: %v", err)
 		}
@@ -286,6 +365,10 @@ func runSelfCheck(t *rapid.T) {
 			}
 			rows = append(rows, r)
 		}
+		// Points reach a memory database in time order here. (Writing an earlier slot of the same
+		// page window after a later one makes memdb forget the later point - see
+		// TestSideFinding_MemdbLaterSlotLostAfterEarlierWrite; that is not what this check is about.)
+		sort.SliceStable(rows, func(i, j int) bool { return rows[i].Slot < rows[j].Slot })
 		for _, r := range rows {
 			pm := &protoMetricsV1.Metric{
 				Name: fmt.Sprintf("m%d", r.Metric), Namespace: "ns",
@@ -326,40 +409,18 @@ func runSelfCheck(t *rapid.T) {
 				}
 				classes["histogram"] = true
 			}
-			block, err := conv.MarshalProtoMetricV1(pm)
-			if err != nil {
-				t.Fatalf("harness: row rejected by the production converter: %v (%+v)", err, pm)
+			if err := shard.write(mdb, pm); err != nil {
+				t.Fatalf("harness: %v", err)
 			}
-			batch := metric.NewStorageBatchRows()
-			batch.UnmarshalRows(append([]byte(nil), block...))
-			if batch.Len() != 1 {
-				t.Fatalf("harness: %d rows decoded", batch.Len())
-			}
-			row := batch.Rows()[0]
-			// tsdb/data_family.go WriteRows
-			mdb.AcquireWrite()
-			if err := mdb.WriteRow(row); err != nil {
-				t.Fatalf("harness: WriteRow: %v", err)
-			}
-			row.Wait()
-			mdb.CompleteWrite()
 			if knownSeries[r.Metric] == nil {
 				knownSeries[r.Metric] = map[uint32]bool{}
 			}
 			knownSeries[r.Metric][r.Series] = true
 		}
 		// the real flush (tsdb/data_family.go flushMemoryDatabase)
-		kvFlusher := famReal.NewFlusher()
-		dataFlusher, err := metricsdata.NewFlusher(kvFlusher)
-		if err != nil {
-			t.Fatalf("harness: %v", err)
-		}
-		err = mdb.FlushFamilyTo(dataFlusher)
-		kvFlusher.Release()
-		if err != nil {
+		if err := shard.flush(mdb, famReal); err != nil {
 			t.Fatalf("memdb flush failed: %v", err)
 		}
-		_ = mdb.Close()
 		real, err := rawBlocksOfNewestFile(famReal)
 		if err != nil {
 			t.Fatalf("harness: %v", err)
